@@ -1,11 +1,57 @@
-/- Oracle operations, group SigHash (see /verif/CONVENTIONS.md). -/
+/- Oracle operations for C03: legacy and BIP143 signature hashes (model and specification). -/
 import BtcVerif.Oracle.Util
+import BtcVerif.Model.SigHash
+import BtcVerif.Spec.SigHash
+import BtcVerif.Spec.Script
+import BtcVerif.Prim.SHA256
 
 namespace BtcVerif.Oracle
-open BtcVerif
+open BtcVerif BtcVerif.Model BtcVerif.Prim
+
+def parseTxArg (h : String) : Option Tx := do
+  let bs ← parseHex h
+  match decTx bs with
+  | .ok (t, []) => some t
+  | _ => none
+
+def digestStr : Outcome Bytes → String
+  | .ok d => "ok " ++ hexOf d
+  | .err => "err"
+  | .panic => "panic"
 
 def opSigHash (op : String) (args : List String) : Option String :=
   match op, args with
+  | "sighash.legacy", [t, n, s, ht] => do
+    let tx ← parseTxArg t
+    let nIn ← n.toNat?
+    let sc ← parseHex s
+    let h ← ht.toNat?
+    some (digestStr (legacyDigest dsha256 tx nIn sc h))
+  | "sighash.legacy.spec", [t, n, s, ht] => do
+    -- consensus digest; only defined for an in-range input index
+    let tx ← parseTxArg t
+    let nIn ← n.toNat?
+    let sc ← parseHex s
+    let h ← ht.toNat?
+    if nIn ≥ tx.inputs.length then some "undefined"
+    else if Spec.legacyIsOne tx nIn h then some ("ok " ++ hexOf uint256One)
+    else some ("ok " ++ hexOf (dsha256 (Spec.legacyPreimage tx nIn (Spec.removeStandalone sc opCodeSeparator) h)))
+  | "sighash.bip143", [t, n, s, ht, amt] => do
+    let tx ← parseTxArg t
+    let nIn ← n.toNat?
+    let sc ← parseHex s
+    let h ← ht.toNat?
+    let a ← amt.toNat?
+    some (digestStr (bip143Digest dsha256 tx nIn sc h a))
+  | "sighash.bip143.spec", [t, n, s, ht, amt] => do
+    let tx ← parseTxArg t
+    let nIn ← n.toNat?
+    let sc ← parseHex s
+    let h ← ht.toNat?
+    let a ← amt.toNat?
+    match tx.inputs[nIn]? with
+    | some vin => some ("ok " ++ hexOf (dsha256 (Spec.bip143Preimage dsha256 tx vin nIn sc h a)))
+    | none => some "undefined"
   | _, _ => none
 
 end BtcVerif.Oracle
